@@ -81,34 +81,28 @@ func (f *StringField) Levels() ([]uint8, []uint8) {
 
 var stringStatsTpl = `{{define "stringStats"}}
 
-const nilString = "__#NIL#__"
-
 type stringStats struct {
-	min string
-	max string
+	min  string
+	max  string
+	seen bool
 }
 
 func newStringStats() *stringStats {
-	return &stringStats{
-		min: nilString,
-		max: nilString,
-	}
+	return &stringStats{}
 }
 
 func (s *stringStats) add(val string) {
-	if s.min == nilString {
+	if !s.seen {
 		s.min = val
-	} else {
-		if val < s.min {
-			s.min = val
-		}
-	}
-	if s.max == nilString {
 		s.max = val
-	} else {
-		if val > s.max {
-			s.max = val
-		}
+		s.seen = true
+		return
+	}
+	if val < s.min {
+		s.min = val
+	}
+	if val > s.max {
+		s.max = val
 	}
 }
 
@@ -121,14 +115,14 @@ func (s *stringStats) DistinctCount() *int64 {
 }
 
 func (s *stringStats) Min() []byte {
-	if s.min == nilString {
+	if !s.seen {
 		return nil
 	}
 	return []byte(s.min)
 }
 
 func (s *stringStats) Max() []byte {
-	if s.max == nilString {
+	if !s.seen {
 		return nil
 	}
 	return []byte(s.max)
